@@ -46,7 +46,7 @@ SPEC = dict(
         "no server extensions, no S2S listener, no TLS (setLocalCertificate not called): default stanza handler only",
         "server-to-server (QXmppIncomingServer/QXmppOutgoingServer, dialback) is OUT OF SCOPE: no S2S listener, stanzas to other "
         "domains are not routed",
-        "the model keeps an 'ub' output where onSasl2Authenticated() would read an unset sasl2AuthRequest; since repo commit b1ba6cb no "
+        "the model keeps an 'ub' output where onSasl2Authenticated() would read an unset sasl2AuthRequest; since repo commit e17a168 no "
         "explored script reaches it (not proved unreachable); the configured domain is assumed to contain no '/' (literal theorems)",
         "JIDs are compared as raw strings as the code does (no stringprep / case folding): an address in another case is simply "
         "another address",
@@ -64,7 +64,7 @@ SPEC = dict(
                "+ random loopback scripts with one and two attacker connections and two checker flavours.",
     level_note="Proved about the hand-written model; model-to-code tie is differential (exhaustive to a depth, sampled beyond). No open "
                "finding: the seven findings of this property (pre-auth stanza/bind/session, reply confusion, names with '/' or '@', "
-               "stale routing entries, SASL2 request unset) are fixed in the repo (73b9a89, e590a14, f6325af, c3084c3, b1ba6cb); their "
+               "stale routing entries, SASL2 request unset) are fixed in the repo (73b9a89, e590a14, f6325af, c3084c3, e17a168); their "
                "witnesses stay in the corpus. S2S/dialback, stringprep/case folding of JIDs, extensions and TLS are out of scope.",
     design_ref="5.16",
     technique="Lean 4 invariant proofs over op lists + model/implementation correspondence on loopback",
